@@ -68,6 +68,8 @@ pub trait Coll {
     fn entries(&self) -> Result<Vec<(u32, i64, i64, i64)>, String> {
         self.abs().expect("tree").map(|a| a.inorder)
     }
+    /// slot-partition failure of an arena-backed tree (the state string is still printed)
+    fn abs_note(&self) -> Option<String> { None }
     /// arena-backed trees only
     fn abs(&self) -> Option<Result<Abs, String>> { None }
     fn structure(&self) -> Option<Result<(usize, usize), String>> { None }
@@ -94,6 +96,7 @@ impl<V: Val> Coll for MapC<V> {
         }
     }
     fn state(&self) -> Result<String, String> { self.abs().unwrap().map(|a| a.state) }
+    fn abs_note(&self) -> Option<String> { self.abs().unwrap().ok().and_then(|a| a.slots_err) }
     fn abs(&self) -> Option<Result<Abs, String>> {
         Some(abs(&self.0.verif_snapshot(), &|e: &(IK, V)| (e.0.k as i64, 0, e.1.to_i64())))
     }
@@ -124,6 +127,7 @@ impl<P: Val> Coll for SetC<P> {
         }
     }
     fn state(&self) -> Result<String, String> { self.abs().unwrap().map(|a| a.state) }
+    fn abs_note(&self) -> Option<String> { self.abs().unwrap().ok().and_then(|a| a.slots_err) }
     fn abs(&self) -> Option<Result<Abs, String>> {
         Some(abs(&self.0.verif_snapshot(), &|e: &SV<P>| (e.key.k as i64, 0, e.payload.to_i64())))
     }
@@ -151,6 +155,7 @@ impl Coll for KeyC {
         }
     }
     fn state(&self) -> Result<String, String> { self.abs().unwrap().map(|a| a.state) }
+    fn abs_note(&self) -> Option<String> { self.abs().unwrap().ok().and_then(|a| a.slots_err) }
     fn abs(&self) -> Option<Result<Abs, String>> {
         Some(abs(&self.0.verif_snapshot(), &|e: &(IK, i64)| (e.0.k as i64, e.0.exp as i64, e.1)))
     }
